@@ -127,7 +127,16 @@ def _mdp_case(case, rng):
     else:
         seq = [rng.choice([-2.0, 0.0, 1.0, 3.5]) for _ in range(rng.randint(1, 12))]
         g2 = rng.choice([0.3, 0.9, 1.0, 0.0])
-    got = case.call("calc_returns", Policy.calc_returns, seq, g2)
+    # the same numbers as Python ints, a tuple, numpy integer / float arrays, bools
+    irep = rng.choice(["float_list", "int_list", "int_tuple", "np_int", "np_float", "bool_list"])
+    if irep != "float_list":
+        base = [int(rng.choice([-2, 0, 1, 3, 10])) for _ in range(len(seq) if len(seq) <= 12 else 12)]
+        if irep == "bool_list":
+            base = [bool(x % 2) for x in base]
+        seq = {"int_list": base, "int_tuple": tuple(base), "np_int": np.array(base, dtype=np.int64),
+               "np_float": np.array(base, dtype=float), "bool_list": base}[irep]
+    got = case.call("calc_returns", Policy.calc_returns, seq, g2, facts=dict(sequence_type=irep))
+    seq = [float(x) for x in seq]
     case.count("calc_returns_checked")
     if got is not case.FAIL:
         ref = _returns(seq, g2)
